@@ -14,6 +14,13 @@ pub fn run(cfg: &RunCfg) -> Ctx {
     all.merge(par_cases(cfg, "declimit", cfg.n(16_000, 16 * 40_000), || (), |_, rng, ctx, _| dec_case(rng, ctx)));
     all.merge(par_cases(cfg, "hugeprefix", cfg.n(2400, 16 * 4000), || (), |_, rng, ctx, _| huge_case(rng, ctx)));
     all.merge(par_cases(cfg, "enclimit", cfg.n(12_000, 16 * 30_000), || (), |_, rng, ctx, _| enc_case(rng, ctx)));
+    #[cfg(feature = "full")]
+    if !small() {
+        all.merge(par_cases(cfg, "plumbing", cfg.n(1500, 16 * 3000), || (), |_, rng, ctx, i| plumbing_case(rng, ctx, i)));
+        for k in ["plumb.server-decode", "plumb.client-decode", "plumb.server-encode", "plumb.client-encode", "plumb.server-decode-default", "plumb.client-decode-default", "plumb.rel.-1", "plumb.rel.0", "plumb.rel.1"] {
+            all.floor(k, 3);
+        }
+    }
     if cfg.thorough && cfg.only.is_none() && std::env::var("VERIF_SKIP_4G").is_err() {
         all.merge(seq_cases(cfg, "enc4g", 1, |_, ctx, _| enc_4g(ctx)));
     }
@@ -365,4 +372,147 @@ fn enc_4g(ctx: &mut Ctx) {
         ctx.count("enc4g.runs");
         ctx.fingerprint(format!("enc4g|{:?}", role), true);
     }
+}
+
+// ------------------------------------------------------------------ limits through the generated client/server
+
+/// `max_decoding_message_size` / `max_encoding_message_size` of the generated client and server
+/// (and the 4 MiB receive default) at L-1 / L / L+1, over the in-process transport.
+#[cfg(feature = "full")]
+pub fn plumbing_case(rng: &mut Rng, ctx: &mut Ctx, idx: u64) {
+    use crate::exec::{Exec, Out};
+    use crate::pb::verif::{verif_client::VerifClient, verif_server::VerifServer};
+    use crate::pb::Msg;
+    use crate::svc::*;
+    // which limit is under test
+    let which = *rng.pick(&["server-decode", "client-decode", "server-encode", "client-encode", "server-decode-default", "client-decode-default"]);
+    let shape = *rng.pick(&SHAPES);
+    let default = which.ends_with("default");
+    let l: usize = if default { 4 * 1024 * 1024 } else { *rng.pick(&[8usize, 100, 1000, 70_000]) };
+    let rel: i64 = rng.range(0, 2) as i64 - 1; // wire length = L + rel
+    // a Msg whose encoded length is exactly `want`: field 1 (bytes) only => 1 + varint(len) + len
+    let msg_of = |want: usize| -> Msg {
+        let mut n = want.saturating_sub(2);
+        loop {
+            let m = Msg { data: vec![0x61; n], seq: 0, tag: String::new() };
+            let e = ref_pb_encode(&m.data, 0, "").len();
+            if e == want || n == 0 {
+                return m;
+            }
+            if e > want { n -= 1 } else { n += 1 }
+        }
+    };
+    let target_len = (l as i64 + rel).max(2) as usize;
+    let big = msg_of(target_len);
+    let actual = ref_pb_encode(&big.data, 0, "").len();
+    let over = actual > l;
+    let small = Msg { data: vec![1, 2, 3], seq: 1, tag: String::new() };
+    let streaming_req = matches!(shape, Shape::ClientStream | Shape::Bidi);
+    let streaming_resp = matches!(shape, Shape::ServerStream | Shape::Bidi);
+    let on_request = which.starts_with("server-decode") || which == "client-encode";
+    // place the big message after a small one when the direction streams
+    let (req_msgs, resp_msgs) = if on_request {
+        (if streaming_req { vec![small.clone(), big.clone()] } else { vec![big.clone()] }, if streaming_resp { vec![small.clone()] } else { vec![small.clone()] })
+    } else {
+        (vec![small.clone()], if streaming_resp { vec![small.clone(), big.clone()] } else { vec![big.clone()] })
+    };
+    let id = format!("p{}", idx);
+    let case_json = json!({"limit_under_test": which, "shape": format!("{:?}", shape), "limit": l, "message_wire_len": actual, "over": over});
+    ctx.begin(&format!("{}-{:?}", which, shape), case_json.clone());
+    ctx.count(&format!("plumb.{}", which));
+    ctx.count(&format!("plumb.rel.{}", actual as i64 - l as i64));
+    let handler = Handler::new();
+    handler.set_script(&id, Script { msgs: resp_msgs.clone(), ..Default::default() });
+    let mut server = VerifServer::new(handler.clone());
+    match which {
+        "server-decode" => server = server.max_decoding_message_size(l),
+        "server-encode" => server = server.max_encoding_message_size(l),
+        _ => {}
+    }
+    if !which.starts_with("server-decode") {
+        server = server.max_decoding_message_size(usize::MAX);
+    }
+    let mut client = VerifClient::new(Loopback::new(server, rng.u64(), 1 << 20));
+    match which {
+        "client-decode" => client = client.max_decoding_message_size(l),
+        "client-encode" => client = client.max_encoding_message_size(l),
+        _ => {}
+    }
+    if !which.starts_with("client-decode") {
+        client = client.max_decoding_message_size(usize::MAX);
+    }
+    let spec = CallSpec { id: id.clone(), shape, req_msgs: req_msgs.clone(), req_meta: vec![], req_pend: vec![], req_gaps_ms: vec![], timeout: None };
+    let mut ex = Exec::new();
+    let view = match ex.block_on(2_000_000, do_call(&mut client, &spec, None)) {
+        Out::Done(v) => v,
+        _ => {
+            ctx.violation("hang", "call did not complete".into());
+            return;
+        }
+    };
+    let failure: Option<i32> = view.call_err.as_ref().map(|s| s.code).or(match &view.end { Some(Err(s)) => Some(s.code), _ => None });
+    let log = handler.log(&id);
+    if !over {
+        // within the limit: everything must go through untouched
+        let script = Script { msgs: resp_msgs.clone(), ..Default::default() };
+        for (d, what) in judge_call(shape, &script, &view) {
+            ctx.violation(&format!("within-limit-{}", d), format!("{} = {} with a {}-byte message: {}", which, l, actual, what));
+        }
+        for (d, what) in judge_request(&spec, &script, &log) {
+            ctx.violation(&format!("within-limit-{}", d), what);
+        }
+    } else {
+        match which {
+            "server-decode" | "server-decode-default" => {
+                // the handler must not receive the oversized message; the call ends OUT_OF_RANGE
+                if log.req_msgs.iter().any(|m| m.data.len() == big.data.len()) {
+                    ctx.violation("oversized-request-delivered", format!("the handler received a {}-byte message over the server's decoding limit {}", actual, l));
+                }
+                if streaming_req {
+                    if log.req_end != Some(Err("OutOfRange".into())) {
+                        ctx.violation("oversized-request-not-refused", format!("handler's request stream ended with {:?} (want Err(OutOfRange))", log.req_end));
+                    } else if log.req_msgs.len() != 1 {
+                        ctx.violation("collateral-loss", format!("handler received {} messages before the refusal, 1 was sent before the oversized one", log.req_msgs.len()));
+                    }
+                } else if failure != Some(11) {
+                    ctx.violation("oversized-request-not-refused", format!("call outcome {:?} (want 11 OUT_OF_RANGE)", failure));
+                }
+            }
+            "client-encode" => {
+                if log.req_msgs.iter().any(|m| m.data.len() == big.data.len()) {
+                    ctx.violation("oversized-request-sent", format!("a {}-byte message over the client's encoding limit {} reached the handler", actual, l));
+                }
+                // a streaming handler that answers without needing the failed request body may still
+                // succeed; when the call fails it must be OUT_OF_RANGE
+                if !streaming_req && failure != Some(11) {
+                    ctx.violation("client-encode-limit-status", format!("call outcome {:?} (want 11)", failure));
+                }
+            }
+            "server-encode" => {
+                if view.msgs.iter().any(|m| m.data.len() == big.data.len()) {
+                    ctx.violation("oversized-response-sent", format!("the client received a {}-byte message over the server's encoding limit {}", actual, l));
+                }
+                if failure != Some(11) {
+                    ctx.violation("server-encode-limit-status", format!("call outcome {:?} (want 11)", failure));
+                }
+                if streaming_resp && view.msgs.len() != 1 {
+                    ctx.violation("collateral-loss", format!("client saw {} messages before the status, 1 was produced before the oversized one", view.msgs.len()));
+                }
+            }
+            _ => {
+                // client-decode / client-decode-default
+                if view.msgs.iter().any(|m| m.data.len() == big.data.len()) {
+                    ctx.violation("oversized-response-accepted", format!("the client accepted a {}-byte message over its decoding limit {}", actual, l));
+                }
+                if failure != Some(11) {
+                    ctx.violation("client-decode-limit-status", format!("call outcome {:?} (want 11)", failure));
+                }
+                if streaming_resp && view.msgs.len() != 1 {
+                    ctx.violation("collateral-loss", format!("client saw {} messages before the refusal, 1 was sent before the oversized one", view.msgs.len()));
+                }
+            }
+        }
+    }
+    ctx.fingerprint(format!("plumb|{}|{:?}|L{}|rel{}", which, shape, l, actual as i64 - l as i64), true);
+    ctx.sample(case_json);
 }
